@@ -36,23 +36,41 @@ let parse_sig comms s =
   | _ -> failwith "sig"
 let popcount (bits : int list) = let c = ref 0 in for i = 0 to 511 do if bit_at bits i then incr c done; !c
 
-type pstep = { force : bool; u : update; now : n; fork : byte list; nbits : int }
+(* conv: the model's converter applied to the wire object (Ok u for a hand-built GenericUpdate) *)
+type pstep = { force : bool; mode : string; conv : update res; now : n; fork : byte list; nbits : int }
+let fork_of = function 'a' -> WAltair | 'c' -> WCapella | 'd' -> WDeneb | _ -> WOther
 let parse_step comms s = match split ',' s with
   | [mode; now; fork; att; nx; nbr; fin; fbr; bits; sg; sigslot] ->
     let u = { u_attested = parse_hdr att;
               u_next = (if nx = "-" then None else Some comms.(int_of_string nx)); u_next_branch = parse_branch nbr;
               u_fin = (if fin = "-" then None else Some (parse_hdr fin)); u_fin_branch = parse_branch fbr;
               u_bits = hexb bits; u_sig = parse_sig comms sg; u_sigslot = n_ (int_of_string sigslot) } in
-    (* typed modes go through the converters: cross-check that they produce exactly this shape *)
+    (* wire objects go through the model's converter of their entry point and fork container type *)
     let m = Char.uppercase_ascii mode.[0] in
+    let wf = if String.length mode > 1 then fork_of mode.[1] else WOther in
     let conv = match m, u.u_next, u.u_next_branch, u.u_fin, u.u_fin_branch with
-      | 'U', Some nc, Some nb, Some fh, Some fb -> from_update u.u_attested nc nb fh fb u.u_bits u.u_sig u.u_sigslot
-      | 'F', None, None, Some fh, Some fb -> from_finality_update u.u_attested fh fb u.u_bits u.u_sig u.u_sigslot
-      | 'O', None, None, None, None -> from_optimistic_update u.u_attested u.u_bits u.u_sig u.u_sigslot
-      | 'G', _, _, _, _ -> u
-      | _ -> failwith "typed step with a shape its converter cannot produce" in
-    { force = mode.[0] <> m; u = conv; now = n_ (int_of_string now); fork = hexb fork; nbits = popcount (Util.bytes_of_hex bits) }
+      | 'U', Some nc, Some nb, Some fh, Some fb -> from_light_client_update wf u.u_attested nc nb fh fb u.u_bits u.u_sig u.u_sigslot
+      | 'F', None, None, Some fh, Some fb -> from_light_client_finality_update wf u.u_attested fh fb u.u_bits u.u_sig u.u_sigslot
+      | 'O', None, None, None, None -> from_light_client_optimistic_update wf u.u_attested u.u_bits u.u_sig u.u_sigslot
+      | 'G', _, _, _, _ -> Ok u
+      | _ -> failwith "wire step whose fields do not fit its container" in
+    { force = (mode.[0] <> m); mode; conv; now = n_ (int_of_string now); fork = hexb fork; nbits = popcount (Util.bytes_of_hex bits) }
   | _ -> failwith "step"
+
+(* which of the four options a converted update carries, and the branch lengths *)
+let shape_of (c : update res) = match c with
+  | Ok u ->
+    let part some_c some_b tag =
+      let a = (match some_c with Some _ -> tag | None -> "") ^ (match some_b with Some l -> Printf.sprintf "b%d" (List.length l) | None -> "") in
+      if a = "" then "-" else a in
+    part u.u_next u.u_next_branch "c" ^ "." ^ part u.u_fin u.u_fin_branch "h"
+  | Err _ -> "err"
+  | Panic -> "panic"
+(* what the property expects of each wire entry point (header and branch travel together, full lengths) *)
+let expected_shape mode =
+  if String.length mode > 1 && mode.[1] = 'e' then Some "err" else
+  match Char.uppercase_ascii mode.[0] with
+  | 'U' -> Some "cb5.hb6" | 'F' -> Some "-.hb6" | 'O' -> Some "-.-" | _ -> None
 
 (* ---- model digests, header roots memoised (real SHA-256 in extracted Gallina is the cost centre) *)
 let htr_memo : (header, string) Hashtbl.t = Hashtbl.create 64
@@ -71,7 +89,8 @@ let parse_digest s = match split ':' s with
   | _ -> None
 let flag_keys = [ 'P', "verified-without-participation"; 'F', "verified-future-slot"; 'O', "verified-unordered-slots";
                   'W', "verified-wrong-period"; 'I', "verified-irrelevant-update"; 'B', "verified-bad-finality-branch";
-                  'C', "verified-bad-committee-branch"; 'S', "verified-bad-signature"; 'K', "verified-wrong-signer-set" ]
+                  'C', "verified-bad-committee-branch"; 'S', "verified-bad-signature"; 'K', "verified-wrong-signer-set";
+                  'T', "verified-unknown-wire-type" ]
 
 let hist_monitors (steps : pstep list) (truths : string list) (impl : string) : string list =
   let fails = ref [] in
@@ -84,10 +103,13 @@ let hist_monitors (steps : pstep list) (truths : string list) (impl : string) : 
        let prev = ref (parse_digest d0) in
        List.iteri (fun i ob ->
          let st = List.nth steps i and t = List.nth truths i in
-         let where = Printf.sprintf "step=%d truth=%s" i t in
-         let res, dgs = match String.index_opt ob '/' with
-           | Some j -> String.sub ob 0 j, String.sub ob (j + 1) (String.length ob - j - 1)
-           | None -> ob, "" in
+         let where = Printf.sprintf "step=%d entry=%s truth=%s" i st.mode t in
+         let res, shape, dgs = match split '/' ob with
+           | [a; b; c] -> a, b, c
+           | _ -> ob, "", "" in
+         (match expected_shape st.mode with
+          | Some e when shape <> e -> add "wire-converter-drops-or-adds-field" (Printf.sprintf "%s converter returned %s, a wire %s carries %s" where shape st.mode e)
+          | _ -> ());
          let illtyped = contains t 'L' in
          if res = "panic" && not illtyped then add "lightclient-panics" where;
          if not illtyped && not (contains t 'U') then begin
@@ -125,14 +147,14 @@ let handle fields impl : string option * string list =
     let truths = split ';' truths in
     let s = ref s0 in
     let obs = List.map (fun st ->
-      let r = verify !s st.u st.now genesis st.fork in
+      let r = verify_wire !s st.conv st.now genesis st.fork in
       let res = ref (match r with Ok _ -> "ok" | Err e -> show_err e | Panic -> "panic") in
       if !res = "ok" || (st.force && !res <> "panic") then begin
-        match apply !s st.u with
+        match apply_wire !s st.conv with
         | Ok s' -> s := s'
         | _ -> res := "panic"
       end;
-      !res ^ "/" ^ digest !s) steps in
+      !res ^ "/" ^ shape_of st.conv ^ "/" ^ digest !s) steps in
     let model = "ok " ^ String.concat ";" (digest s0 :: obs) in
     (Some model, hist_monitors steps truths impl)
   | ["boot"; _seed; checkpoint; hdr; exec_root; exec_br_root; comm; branch; now; max_age; strict; truth] ->
